@@ -42,7 +42,7 @@ LEVEL_NOTE = ('trusted base: vf/ball.py, vf/exactq.py, CPython ints; gamma famil
               'are tested')
 TECHNIQUE = 'runtime oracle monitor on interval results + StoreHook on stored intervals + ReturnTap on directed primitives'
 
-CASES = {'quick': 1500, 'thorough': 60000}
+CASES = {'quick': 9000, 'thorough': 80000}
 NSHARDS = 16
 OPS = (['add', 'sub', 'mul', 'div'] * 3 + ['pow_int'] * 4 + ['pow_real'] * 3 + ['unary'] * 2 + ['exp'] * 4 + ['log'] * 4 +
        ['sqrt'] * 2 + ['sin', 'cos'] * 3 + ['tan'] * 3 + ['atan2'] * 4 + ['gamma'] * 3 + ['convert'] * 5 + ['string'] * 5)
@@ -217,8 +217,16 @@ def classify(ctx, op, prec, records, opclasses, kind, store_kind=None):
     """mechanism key of a containment failure"""
     checked = O.check_records(records, ctx.consensus if op in GAMMA_FUNS else None)
     ctx.tap_checked += len(checked)
-    for name, args, ret, verdict, exc in checked:
+    # a wrong-side directed primitive explains the failure better than a defect of an interval-level routine that
+    # merely used it: look at the mpf-level records first
+    order = [c for c in checked if c[0] != 'mpi_atan2'] + [c for c in checked if c[0] == 'mpi_atan2']
+    for name, args, ret, verdict, exc in order:
         if verdict == 'violated':
+            if name == 'mpi_atan2':
+                rg = O.regime(name, args)
+                info = {'primitive': name, 'prec': args['prec'], 'regime': rg, 'y': [fmt_raw(t) for t in args['y']],
+                        'x': [fmt_raw(t) for t in args['x']], 'result': [fmt_raw(t) for t in ret]}
+                return 'C14/mpi_atan2/' + rg, info, exc
             if name == 'from_str':
                 ex = Q.parse_decimal(args['x'])
                 approx = False
@@ -230,12 +238,17 @@ def classify(ctx, op, prec, records, opclasses, kind, store_kind=None):
                 return ('C14/from_str/' + ('approx-branch-directed' if approx else 'exact-branch-directed'),
                         {'primitive': name, 'x': args['x'], 'prec': args['prec'], 'rnd': args['rnd'], 'result': fmt_raw(ret)}, exc)
             nm = name
-            if name == 'mpf_gamma':
-                nm = {0: 'mpf_gamma', 1: 'mpf_factorial', 2: 'mpf_rgamma', 3: 'mpf_loggamma'}[args.get('type', 0)]
-            info = {'primitive': nm, 'prec': args['prec'], 'rnd': args['rnd'], 'result': fmt_raw(ret), 'excess_ulps': exc}
-            for k in ('x', 's', 't', 'y', 'n', 'p', 'q'):
+            if name in ('mpf_gamma', 'mpc_gamma'):
+                nm = name[:4] + {0: 'gamma', 1: 'factorial', 2: 'rgamma', 3: 'loggamma'}[args.get('type', 0)]
+            info = {'primitive': nm, 'prec': args['prec'], 'rnd': args['rnd'], 'excess_ulps': exc,
+                    'result': fmt_raw(ret) if len(ret) == 4 else [fmt_raw(ret[0]), fmt_raw(ret[1])]}
+            for k in ('x', 's', 't', 'y', 'n', 'p', 'q', 'z'):
                 if k in args and args[k] is not None:
-                    info[k] = fmt_raw(args[k]) if isinstance(args[k], tuple) else args[k]
+                    v = args[k]
+                    if isinstance(v, tuple) and len(v) == 2:
+                        info[k] = [fmt_raw(v[0]), fmt_raw(v[1])]
+                    else:
+                        info[k] = fmt_raw(v) if isinstance(v, tuple) else v
             info['regime'] = O.regime(name, args)
             return 'C14/%s/%s/%s' % (nm, info['regime'], O.excess_class(exc)), info, exc
     key = 'C14/%s/%s' % (op, opclasses)
@@ -319,7 +332,7 @@ def run_checked(ctx, op, prec, call, inputs, point_oracles, extra_checks=None, v
                 rec.event('sample points violated')
                 if found is None:
                     key, culprit, exc = classify(ctx, op, prec, records, opclasses, kind)
-                    sev = info.get('excess_ulps')
+                    sev = info.get('excess_ulps') if culprit is None else (exc if exc is not None else float('nan'))
                     rec.violation(key, '%s: exact value at a sample point (%s) lies outside the returned interval' % (op, kind),
                                   dict(case, sample=sample, sample_kind=kind, culprit=culprit, detail=info),
                                   observed=case['result'], expected='interval containing ' + info['enclosure'],
@@ -342,7 +355,7 @@ def run_checked(ctx, op, prec, call, inputs, point_oracles, extra_checks=None, v
         for name, args, ret, verdict, exc in chk:
             if verdict == 'violated':
                 rec.event('directed primitive on the wrong side while the interval still contained the samples')
-                rec.note('harmless wrong-side primitives', {'primitive': name, 'prec': args['prec'], 'rnd': args['rnd'], 'op': op})
+                rec.note('harmless wrong-side primitives', {'primitive': name, 'prec': args.get('prec'), 'rnd': args.get('rnd'), 'op': op})
     return res
 
 
